@@ -16,13 +16,17 @@
      wext w w'        = spent and signature tables of w' extend those of w (nothing removed or altered)
      same_but_calls   = nothing changed but the call counter
      settled w h      = the backend reports the own invoice with payment hash h as settled
+     ordered b a s p  = on every path of program p (for every response, so for every fault and cut) an event `a` is preceded by an event `b`
 
    at_most_once: over every sequential history, the secrets consumed by successful swaps and PAID melts are pairwise distinct.
    hrun_inv / hrun_ext / spent_stays_refused hold for EVERY history item kind (faults, crashes, schedules).
-   Concurrent swap||melt on one proof is NOT safe in the code (known finding, reproduced by the c01-sched stream and by the model).
+   concurrent_at_most_once: for ANY concurrent batch and ANY schedule at call granularity, two requests that consume the same secret
+   are never both successful as far as the tables can tell (both insert a row with that Y; the unique key refuses the second).
+   Concurrent swap||melt on one proof is NOT safe in the code: swap_melt_race is the computed schedule (the melt's Lightning payment
+   goes out before its insert is refused); known finding, reproduced on the real mint by the c01-sched stream.
 *)
 From Coq Require Import ZArith List Bool.
-From Verif Require Import Model Sem InvDb InvSwap InvMint InvMelt Corollaries Queries Footprint HRel Global GlobalQuote GlobalValue GlobalErr GlobalQuery GlobalMelt GlobalKeys Cuts.
+From Verif Require Import Model Sem InvDb InvSwap InvMint InvMelt Corollaries Queries Footprint HRel Global GlobalQuote GlobalValue GlobalErr GlobalQuery GlobalMelt GlobalKeys Cuts CutOrder Conc Races GlobalBalance.
 Import ListNotations.
 Open Scope Z_scope.
 
@@ -73,6 +77,20 @@ Theorem C01_at_most_once : forall (cfg : config) (h : list op), NoDup (consumed_
 Proof. exact @at_most_once. Qed.
 Print Assumptions C01_at_most_once.
 
+Theorem C01_concurrent_at_most_once : forall (cfg : config) (w : world) (ops : list op) (sched : list nat) (s : Z) (i j : nat) (oi oj : op),
+       WInv w ->
+       i <> j ->
+       nth_error ops i = Some oi ->
+       nth_error ops j = Some oj ->
+       consumes s oi ->
+       consumes s oj ->
+       let rs := snd (run_concurrent cfg w ops sched) in
+       forall ri rj : opres,
+       nth_error rs i = Some ri ->
+       nth_error rs j = Some rj -> success_of oi ri = true -> success_of oj rj = true -> False.
+Proof. exact @concurrent_at_most_once. Qed.
+Print Assumptions C01_concurrent_at_most_once.
+
 Theorem C01_locked_or_spent_refused : forall (cfg : config) (h : list op) (ins : list proof) (outs : list bmsg) (sg : bool),
        let w := reach cfg h in
        (exists p : proof,
@@ -85,6 +103,14 @@ Theorem C01_locked_or_spent_refused : forall (cfg : config) (h : list op) (ins :
           w_db w' = w_db w /\ w_ln w' = w_ln w).
 Proof. exact @locked_or_spent_refused. Qed.
 Print Assumptions C01_locked_or_spent_refused.
+
+Theorem C01_swap_melt_race : let w0 := hrun cfg1 world0 race_prefix in
+       let
+       '(w, rs) := run_concurrent cfg1 w0 race_ops race_sched in
+        (exists sigs : list srow, nth_error rs 0 = Some (RSigs sigs) /\ sigs <> []) /\
+        length (l_calls (w_ln w)) = 1%nat /\ issuedZ w = 128 /\ redeemedZ w = 64.
+Proof. exact @swap_melt_race. Qed.
+Print Assumptions C01_swap_melt_race.
 
 Theorem C01_swap_rejects_represented : forall (mem_ks : list ksrow) (active : Z) (ins : list proof) (outs : list bmsg) (sg : bool) (w : world),
        WInv w ->
